@@ -8,7 +8,6 @@ package main
 // (L.NewThread + L.Resume, host functions that L.Yield more/fewer values than they got).
 
 import (
-	"context"
 	"encoding/hex"
 	"fmt"
 	"os"
@@ -374,7 +373,7 @@ func runCoLua(src string) (toks []string, crash string) {
 		return 0
 	}))
 	L.SetGlobal("hostid", L.NewFunction(func(L *lua.LState) int { return L.GetTop() }))
-	ctx, cancel := context.WithTimeout(context.Background(), 45*time.Second)
+	ctx, cancel := hangCtx(45 * time.Second)
 	defer cancel()
 	L.SetContext(ctx)
 	defer func() {
@@ -661,7 +660,7 @@ func execCoAPI(ops []Op) []string {
 		}
 		return L.Yield(vals...)
 	}))
-	ctx, cancel := context.WithTimeout(context.Background(), 45*time.Second)
+	ctx, cancel := hangCtx(45 * time.Second)
 	defer cancel()
 	L.SetContext(ctx)
 	if err := L.DoString(src); err != nil {
@@ -915,7 +914,7 @@ emit("s2", coroutine.status(inner), tryresume(inner), tryresume(outer))`)
 	}()
 	select {
 	case why = <-done:
-	case <-time.After(20 * time.Second):
+	case <-hangAfter(20 * time.Second):
 		why = "hang"
 	}
 	return
@@ -1020,7 +1019,7 @@ func coCanary() string {
 			return "child process died running the witness (" + err.Error() + ") " + strings.TrimSpace(outb.String())
 		}
 		return ""
-	case <-time.After(60 * time.Second):
+	case <-hangAfter(60 * time.Second):
 		cmd.Process.Kill()
 		return "child process hung running the witness"
 	}
